@@ -165,7 +165,14 @@ where
     #[cfg(feature = "std")]
     fn chunks_vectored<'a>(&'a self, dst: &mut [IoSlice<'a>]) -> usize {
         let mut n = self.a.chunks_vectored(dst);
-        n += self.b.chunks_vectored(&mut dst[n..]);
+        // `b` may only follow once `a` has been described completely, otherwise the
+        // slices would skip bytes of `a`.
+        let a_len = dst[..n]
+            .iter()
+            .fold(0usize, |acc, s| acc.saturating_add(s.len()));
+        if a_len == self.a.remaining() {
+            n += self.b.chunks_vectored(&mut dst[n..]);
+        }
         n
     }
 
